@@ -260,6 +260,76 @@ def c08_7(ctx):
     return out
 
 
+def _str_pipeline(e):
+    """method-call chain applied to a string, innermost first: [(method, [constant args])]"""
+    chain = []
+    while isinstance(e, ast.Call) and isinstance(e.func, ast.Attribute):
+        chain.append((e.func.attr, [a.value if isinstance(a, ast.Constant) else None for a in e.args]))
+        e = e.func.value
+    chain.reverse()
+    return e, chain
+
+
+def c08_12(ctx):
+    """ORDER of the path normalisation: the hardened marker `h` is rewritten to `'` on the *lower-cased* path (or both `h` and `H`
+    are rewritten), so that every notation of one path -- m/84H/0h/1' -- denotes the same key"""
+    out = []
+    for spec in ("hd:HDPrivateKey.traverse", "hd:HDPublicKey.traverse"):
+        mod, fn = rl.get(ctx, spec)
+        cfg = cfg_of(fn)
+        tests = [n for n in cfg.tests() if isinstance(n.ast, ast.Call) and call_name(n.ast) == "startswith"]
+        if not tests:
+            raise AnalysisError("%s: path prefix test not found" % spec)
+        n = tests[0]
+        ex = expand(fn, n.id, n.ast.func.value, depth=8)
+        base, chain = _str_pipeline(ex)
+        names = [m for m, _ in chain]
+        reps = [(i, a) for i, (m, a) in enumerate(chain) if m == "replace" and len(a) == 2 and a[1] == "'"]
+        lows = [i for i, (m, a) in enumerate(chain) if m in ("lower", "casefold")]
+        if not reps:
+            out.append(ctx.err(spec, "h→' rewriting not found in the normalisation `%s`" % ast.unparse(ex)[:80], n.ast, mod))
+            continue
+        rewritten = {a[0] for i, a in reps}
+        first_rep = min(i for i, a in reps if a[0] in ("h", "H"))
+        if {"h", "H"} <= rewritten or (lows and min(lows) < first_rep and "h" in rewritten):
+            out.append(ctx.ok(spec, "normalisation `%s`: h is rewritten after lower-casing (or in both cases)" % ".".join(names), n.ast, mod, key="norm-order"))
+        elif "h" in rewritten and (not lows or min(lows) > first_rep):
+            out.append(ctx.bad(spec, "normalisation `%s` rewrites `h` before the path is lower-cased: an upper-case `H` marker survives as `h`, so m/84H/0H is not the key of "
+                                     "m/84'/0' (private traversal raises on int('84h'))" % ".".join(names), n.ast, mod, key="norm-order"))
+        else:
+            out.append(ctx.err(spec, "normalisation `%s` not recognised" % ".".join(names), n.ast, mod))
+    return out
+
+
+def c08_13(ctx):
+    """raw_parse keeps the network it is given: testnet, signet and regtest share the testnet version bytes, so the default
+    "testnet" may only be filled in when the caller passed no network (an explicit regtest / signet key must not come back as testnet)"""
+    out = []
+    for spec in ("hd:HDPrivateKey.raw_parse", "hd:HDPublicKey.raw_parse"):
+        mod, fn = rl.get(ctx, spec)
+        cfg = cfg_of(fn)
+        net = next((p for p in param_names(fn) if p == "network"), None)
+        if net is None:
+            raise AnalysisError("%s: no network parameter" % spec)
+        stores = [n for n in cfg.stmts(("stmt",)) if isinstance(n.ast, ast.Assign) and any(isinstance(t, ast.Name) and t.id == net for t in n.ast.targets)
+                  and isinstance(n.ast.value, ast.Constant) and n.ast.value.value == "testnet"]
+        if not stores:
+            out.append(ctx.ok(spec, "the network argument is never replaced by the testnet default", fn, mod, key="network-kept"))
+            continue
+
+        def match(node, ex, atoms, net=net):
+            t = node.ast
+            if isinstance(t, ast.Compare) and len(t.ops) == 1 and isinstance(t.left, ast.Name) and t.left.id == net and isinstance(t.comparators[0], ast.Constant) \
+                    and t.comparators[0].value is None:
+                return BAD_FALSE if isinstance(t.ops[0], (ast.Is, ast.Eq)) else BAD_TRUE
+            if isinstance(t, ast.Name) and t.id == net:
+                return BAD_TRUE  # `if not network:` -> the store may only be reached when the name is falsy
+            return None
+        out.append(rl.guard(ctx, spec, match, targets=lambda m, f, stores=stores: stores, what="the testnet default is only filled in when no network was given",
+                            key="network-kept"))
+    return out
+
+
 def c08_8(ctx):
     spec = "blinding:blind_xpub"
     mod, fn = rl.get(ctx, spec)
@@ -361,6 +431,8 @@ def c08_11(ctx):
 
 
 OBLIGATIONS = [
+    ("C08.13", "GUARD default", c08_13),
+    ("C08.12", "ORDER normalisation", c08_12),
     ("C08.11", "MEMO", c08_11),
     ("C08.1", "RANGE accept-set", c08_1),
     ("C08.2", "RANGE partition", c08_2),
